@@ -332,7 +332,17 @@ func ExpandFootprints(locs []Expr, fps map[string]*Footprint) ([]Expr, error) {
 	return out, nil
 }
 
+// Private declares that the fields of some struct types are only touched by the functions of one source file: the
+// justification for assuming an invariant of those fields at the entry of that file's methods without requiring it of callers.
+type Private struct {
+	Types []string
+	File  string
+	Pos   Pos
+	Pkg   string
+}
+
 type File struct {
+	Privates []*Private
 	Footprints []*Footprint
 	TypeInvs []*TypeInv
 	Reps     []*Represents
